@@ -288,8 +288,82 @@ func TestC14Signatures(t *testing.T) {
 		w.outsider = chainkit.DetKey("placement-outsider")
 		h.Op("vectors=%d members=%v reps=%v", nvec, lens(w.members), w.reps)
 
+		// what the last commit fixed, for the read-back after every round
+		checkRoster := func(what string) {
+			for v := 0; v <= nvec; v++ {
+				o := w.c.Call(nil, w.cnt, "nodes", w.blob.id, v)
+				got, ok := bytesList(o)
+				if !ok {
+					fail("C14: nodes(cid,%d) failed %s: %s", v, what, o)
+				}
+				var want []string
+				if v < nvec {
+					for _, k := range w.members[v] {
+						want = append(want, "x"+hex(k.PublicKey().Bytes()))
+					}
+				}
+				if len(got) != len(want) {
+					fail("C14: nodes(cid,%d) returns %d keys %s, the last commit fixed %d", v, len(got), what, len(want))
+				}
+				for i := range want {
+					if got[i] != want[i] {
+						fail("C14: nodes(cid,%d)[%d] differs from the committed key %s", v, i, what)
+					}
+				}
+			}
+			o := w.c.Call(nil, w.cnt, "replicasNumbers", w.blob.id)
+			arr, ok := o.Array()
+			if !ok || len(arr) != len(w.reps) {
+				fail("C14: replicasNumbers(cid) = %s %s, the last commit fixed %v", o, what, w.reps)
+			}
+			for i, rp := range w.reps {
+				if chainkit.ItemInt(arr[i]) != int64(rp) {
+					fail("C14: replicasNumbers(cid)[%d] = %d %s, the last commit fixed %d", i, chainkit.ItemInt(arr[i]), what, rp)
+				}
+			}
+		}
+		checkRoster("right after the commit")
+		deleted := false
 		rounds := rapid.IntRange(1, 6).Draw(rt, "rounds")
 		for r := 0; r < rounds; r++ {
+			// things that happen to a container between two roster commits: none of them is a commit, so none of them
+			// may change what nodes/replicasNumbers answer or what the signature check demands
+			switch rapid.SampledFrom([]string{"", "", "", "", "pending", "eacl", "re-put", "delete"}).Draw(rt, "lifecycle") {
+			case "pending":
+				v := rapid.IntRange(0, nvec-1).Draw(rt, "pendingVector")
+				{
+					// the contract wants pending vectors to be filled from 0 upwards: add to every vector up to v
+					for i := 0; i <= v; i++ {
+						o := w.c.Invoke(w.alpha, w.cnt, "addNextEpochNodes", w.blob.id, i, []any{w.outsider.PublicKey().Bytes()})
+						h.Op("addNextEpochNodes(vector %d, the outsider's key) without a commit -> %s", i, o)
+					}
+				}
+				h.Mark("pending-roster-without-commit")
+				checkRoster("after nodes were added to the pending roster (no commit)")
+			case "eacl":
+				if !deleted {
+					o := w.c.Invoke(w.alpha, w.cnt, "setEACL", mkEACL(w.blob.id, 0, r), detBytes("esig", 64), detBytes("epub", 33), []byte{})
+					h.Op("setEACL -> %s", o)
+					checkRoster("after setEACL")
+				}
+			case "re-put":
+				if !deleted {
+					o := w.c.Invoke(w.alpha, w.cnt, "put", w.blob.value, detBytes("sig2", 64), pub, []byte{}, true)
+					h.Op("put of the same container again -> %s", o)
+					checkRoster("after a repeated put")
+				}
+			case "delete":
+				if !deleted {
+					o := w.c.Invoke(w.alpha, w.cnt, "delete", w.blob.id, detBytes("dsig", 64), []byte{})
+					h.Op("delete of the container -> %s", o)
+					if !o.Halt {
+						fail("C14 harness: delete: %s", o)
+					}
+					deleted = true
+					h.Mark("container-deleted-between-commits")
+					checkRoster("after the container was deleted (not a commit)")
+				}
+			}
 			// message: either free bytes (verifyPlacementSignatures) or object meta (submitObjectPut)
 			useSubmit := rapid.Bool().Draw(rt, "submit")
 			var msg []byte
@@ -380,7 +454,7 @@ func TestC14Signatures(t *testing.T) {
 				if o.Halt && !ref {
 					fail("C14: submitObjectPut accepted a matrix without REP distinct member signatures per vector:%s (reps %v)", desc, w.reps)
 				}
-				if honest && satisfiable && !o.Halt {
+				if honest && satisfiable && !o.Halt && !deleted {
 					fail("C14: submitObjectPut refused an honest matrix: %s", o)
 				}
 				n := len(chainkit.EventsNamed(o.Events, "ObjectPut"))
